@@ -169,6 +169,12 @@ class SimFS:
     def open(self, file, mode="r", *args, **kwargs):
         path = os.fspath(file)
         self.open_log.append((path, mode))
+        fault = getattr(self, "open_faults", None)
+        if fault and (len(self.open_log) - 1) in fault:
+            # scripted fault: this open() of the namespace fails (the file was renamed away, the descriptor table is full, ...)
+            e = fault[len(self.open_log) - 1]
+            self.open_faults_fired = getattr(self, "open_faults_fired", 0) + 1
+            raise OSError(e, os.strerror(e), path)
         m = mode.replace("b", "")
         if "b" not in mode:
             raise ValueError("simulated files are binary only: %r" % mode)
